@@ -19,7 +19,7 @@ E
 )
   if [ "$ok" != ok ]; then echo "INTAKE $pid/$wt/$n: NOT CONFIRMED $ok"; continue; fi
   k=1; while [ -d seeded/$pid-$k ]; do k=$((k+1)); done
-  SRC_WT=$wt KEEP_AS=$k python3 tools/keep_seed.py $pid $n "round 9" >/dev/null
+  SRC_WT=$wt KEEP_AS=$k python3 tools/keep_seed.py $pid $n "${ROUND:-round 10}" >/dev/null
   echo "INTAKE $pid/$wt/$n: confirmed, kept as seeded/$pid-$k"
   tools/seedrun.sh /verif/seeded/$pid-$k $pid
 done
